@@ -18,7 +18,7 @@ REPO = os.environ.get('VERIF_REPO', '/repo')
 SPEC = os.path.join(VERIF, 'spec')
 EVID = os.environ.get('VERIF_EVIDENCE_DIR') or os.path.join(VERIF, 'evidence')     # selftests redirect this
 REPLAYS = os.environ.get('VERIF_REPLAY_DIR') or os.path.join(VERIF, 'replays')
-KNOWN = os.path.join(VERIF, 'known_findings.json')
+KNOWN = os.environ.get('VERIF_KNOWN_FINDINGS') or os.path.join(VERIF, 'known_findings.json')     # selftests redirect this
 NCPU = int(os.environ.get('VERIF_CPUS', os.cpu_count() or 4))
 
 _scratch = None
